@@ -340,6 +340,9 @@ def run(rep, proj, tier):
     rep.rule_text = "instances: 2 result classes, 1 routing method, 6 scheme literals; distinct by construct."
     rep.trusted_base = ["CPython ast", "yadsa partial evaluator", "numpy.einsum('aj,aj') = double contraction", "eko.io.runcards/eko.couplings API shape as summarised in rules/c17.py"]
     rep.assumptions = ["alpha_s and alpha_qed callables are pure"]
+    from . import state
+
+    state.check(rep, proj, "C17.state", module_filter=lambda m: m.name in ('yadism.output', 'yadism.esf.result'))
     check_formula(rep, proj)
     check_args(rep, proj)
     check_alphas(rep, proj)
